@@ -48,7 +48,13 @@ let field (impl : string list) (name : string) : string option =
 let verdict_s = function VHolds -> "holds" | VNa -> "na" | VFails -> "fails:-"
 
 (* the model's observation after loading: apply the operations one by one (= Coq [step]) and record which failed *)
-let observe (tx : fixed_tx) (ops : op list) : string * string =
+(* body_canonical (schema decoder + re-encoder) is the costly part of a case: computed once per distinct body *)
+let canon_tbl : (n list, n list option) Hashtbl.t = Hashtbl.create 8
+let canon_cached (b : n list) : n list option =
+  match Hashtbl.find_opt canon_tbl b with
+  | Some r -> r
+  | None -> let r = body_canonical b in Hashtbl.replace canon_tbl b r; r
+let observe (impl_bb : string) (tx : fixed_tx) (ops : op list) : string * string =
   let flags = Buffer.create 8 in
   let tx = List.fold_left (fun tx o ->
       match apply_op hid sign_vkey sign_boot o tx with
@@ -57,9 +63,13 @@ let observe (tx : fixed_tx) (ops : op list) : string * string =
       | Panic -> raise Model_panic
       | OutOfFuel -> raise Model_oof) tx ops in
   let e = if Buffer.length flags = 0 then "-" else Buffer.contents flags in
-  (Printf.sprintf "ok b=%s a=%s w=%s t=%s hp=%s e=%s" (hex_of_bytes tx.ft_body)
+  (* body().to_bytes(): the canonical re-encoding, known to the model on the schema-covered sub-stream only
+     (elsewhere the implementation's value is echoed, i.e. not compared) *)
+  let bb = (match canon_cached tx.ft_body with Some c -> hex_of_bytes c | None -> impl_bb) in
+  (Printf.sprintf "ok b=%s a=%s w=%s t=%s hp=%s e=%s v=%d bb=%s sc=-" (hex_of_bytes tx.ft_body)
      (match tx.ft_aux with Some a -> hex_of_bytes a | None -> "~")
-     (hex_of_bytes (encode_wits tx.ft_wits)) (hex_of_bytes (encode_fixed tx)) (hex_of_bytes tx.ft_hash) e, e)
+     (hex_of_bytes (encode_wits tx.ft_wits)) (hex_of_bytes (encode_fixed tx)) (hex_of_bytes tx.ft_hash) e
+     (if tx.ft_valid then 1 else 0) bb, e)
 
 let n_loaded = ref 0 and n_covered = ref 0
 let is_setter = function OSetBody _ | OSetWits _ | OSetAux _ -> true | _ -> false
@@ -84,12 +94,12 @@ let run_tx (load : fixed_tx result) (judge_input : n list option) (optoks : stri
   | OutOfFuel -> ("outoffuel", "na")
   | Ok tx ->
     (* a library rejection is tolerated only outside the sub-stream the C01 schema decoder covers *)
-    let cov = tx_covered tx in
+    let cov = canon_cached tx.ft_body <> None && aux_covered tx.ft_aux && wits_covered tx.ft_wits in
     incr n_loaded; if cov then incr n_covered;
     if impl = ["err"] && not cov then ("skip impl-rejects", "na") else
     let ops = List.map parse_op optoks in
     (try
-      let (m, e) = observe tx ops in
+      let (m, e) = observe (match field impl "bb" with Some x -> x | None -> "?") tx ops in
       match impl with
       | "ok" :: _ ->
         let ie = (match field impl "e" with Some s -> s | None -> "-") in
@@ -102,9 +112,9 @@ let run_tx (load : fixed_tx result) (judge_input : n list option) (optoks : stri
             | Some inp, Some b, Some a, Some w, Some t, Some hp when same_reading inp ->
               let okflags = List.mapi (fun i o -> (o, not (i < String.length ie && ie.[i] = '1'))) ops in
               let o = { o_body = bytes_of_hex b; o_aux = (if a = "~" then None else Some (bytes_of_hex a));
-                        o_wits = bytes_of_hex w; o_tx = bytes_of_hex t;
+                        o_wits = bytes_of_hex w; o_tx = bytes_of_hex t; o_valid = (field impl "v" = Some "1");
                         o_hash_pre = (if String.length hp > 0 && hp.[0] = '?' then None else Some (bytes_of_hex hp)) } in
-              verdict_s (judge inp okflags o)
+              if field impl "sc" <> Some "-" then "fails:-" else verdict_s (judge inp okflags o)
             | _ -> "na" in
           (m, v)
         end
@@ -132,7 +142,7 @@ let res_map f = function Ok (x, _) -> Ok (f x) | Err -> Err | Panic -> Panic | O
 let one_item (b : n list) : bool = item_wf b
 
 let run_mode () = run_driver (fun toks impl ->
-  Hashtbl.reset vk_oracle; Hashtbl.reset bw_oracle;
+  Hashtbl.reset vk_oracle; Hashtbl.reset bw_oracle; Hashtbl.reset canon_tbl;
   match toks with
   | "tx" :: hexs :: ops ->
     let bs = bytes_of_hex hexs in
@@ -178,8 +188,31 @@ let run_mode () = run_driver (fun toks impl ->
              verdict_s (judge_datum bs (bytes_of_hex o)
                           (if String.length hp > 0 && hp.[0] = '?' then None else Some (bytes_of_hex hp)))
            | _ -> "na") in
-       (Printf.sprintf "ok o=%s hp=%s" (hex_of_bytes raw) (hex_of_bytes h), v)
+       let v = if field impl "sc" <> Some "-" && v = "holds" then "fails:-" else v in
+       let bb = (match body_canonical raw with Some c -> hex_of_bytes c | None -> (match field impl "bb" with Some x -> x | None -> "?")) in
+       (Printf.sprintf "ok o=%s hp=%s bb=%s sc=-" (hex_of_bytes raw) (hex_of_bytes h) bb, v)
      | Err -> ("err", "na") | Panic -> ("panic", "na") | OutOfFuel -> ("outoffuel", "na"))
+  | "fws" :: hexs :: optoks ->
+    let bs = bytes_of_hex hexs in
+    (match decode_wits bs with
+     | Ok (w, _) ->
+       if impl = ["err"] && not (wits_covered w) then ("skip impl-rejects", "na") else
+       let ops = List.map parse_op optoks in
+       let w' = List.fold_left (fun w o -> match o with OAddVkey x -> add_vkey x w | OAddBoot x -> add_boot x w | _ -> w) w ops in
+       let out = encode_wits w' in
+       (* the judge reads the set as the witness set of a transaction around a tiny body *)
+       let tiny = List.map n_of_int [163; 0; 128; 1; 128; 2; 0] in
+       let frame ws = [n_of_int 132] @ tiny @ ws @ [n_of_int 245; n_of_int 246] in
+       let v = (match field impl "w", item_wf bs with
+           | Some iw, true when same_reading (frame bs) ->
+             let iwb = bytes_of_hex iw in
+             if field impl "sc" <> Some "-" then "fails:-" else
+             verdict_s (judge (frame bs) (List.map (fun o -> (o, true)) ops)
+                          { o_body = tiny; o_aux = None; o_wits = iwb; o_tx = frame iwb; o_valid = true; o_hash_pre = Some tiny })
+           | _ -> "na") in
+       (Printf.sprintf "ok w=%s sc=-" (hex_of_bytes out), v)
+     | Err -> ((if impl <> ["err"] && map_slices bs = None then "skip impl-accepts-illformed" else "err"), "na")
+     | Panic -> ("panic", "na") | OutOfFuel -> ("outoffuel", "na"))
   | ["fbs"; hexs] ->
     let bs = bytes_of_hex hexs in
     (match decode_fixed_bodies hid bs with
@@ -195,7 +228,9 @@ let run_mode () = run_driver (fun toks impl ->
      | Ok (b, _) ->
        if impl = ["err"] then ("skip impl-rejects", "na") else
        let (origs, hq, bh) = block_fields impl in
-       (Printf.sprintf "ok %s bh=%s" (bodies_obs b.fb_bodies) (hex_of_bytes b.fb_hash), verdict_s (judge_block bs origs hq bh))
+       let v = verdict_s (judge_block bs origs hq bh) in
+       let v = if field impl "sc" <> Some "-" && v = "holds" then "fails:-" else v in
+       (Printf.sprintf "ok %s bh=%s nw=%d ni=%d sc=-" (bodies_obs b.fb_bodies) (hex_of_bytes b.fb_hash) (int_of_nat b.fb_nwits) (int_of_nat b.fb_ninvalid), v)
      | Err -> ((if impl <> ["err"] && array_slices bs = None then "skip impl-accepts-illformed" else "err"), "na")
      | Panic -> ("panic", "na") | OutOfFuel -> ("outoffuel", "na"))
   | ["vblk"; hexs; _] ->
@@ -207,7 +242,9 @@ let run_mode () = run_driver (fun toks impl ->
        let v = (match array_slices bs with
            | Some ([_; inner], _) -> verdict_s (judge_block inner origs hq bh)
            | _ -> "na") in
-       (Printf.sprintf "ok era=%s %s bh=%s" (string_of_n (era_of era)) (bodies_obs b.fb_bodies) (hex_of_bytes b.fb_hash), v)
+       let v = if field impl "sc" <> Some "-" && v = "holds" then "fails:-" else v in
+       (Printf.sprintf "ok era=%s %s bh=%s nw=%d ni=%d sc=-" (string_of_n (era_of era)) (bodies_obs b.fb_bodies) (hex_of_bytes b.fb_hash)
+          (int_of_nat b.fb_nwits) (int_of_nat b.fb_ninvalid), v)
      | Err -> ((if impl <> ["err"] && array_slices bs = None then "skip impl-accepts-illformed" else "err"), "na")
      | Panic -> ("panic", "na") | OutOfFuel -> ("outoffuel", "na"))
   | _ -> ("driver-badcase", "na"))
@@ -501,6 +538,7 @@ let gen_aux (nz : noise) (size : int) : string =
   nstr nz' (gen_item (auxiliaryData depth) size)
 
 let body_pool : string list ref = ref []
+let big_sizes = ref false      (* thorough tier: larger structures (the generic reader is quadratic in the input size) *)
 
 let bytes_of_string (s : string) : n list = List.init (String.length s) (fun i -> n_of_int (Char.code s.[i]))
 (* the witnesses already inside a witness-set encoding, as add operations (adding one of them again must not
@@ -522,6 +560,9 @@ let gen_ops ?(wits : string = "") (body : string) (sign_ok : bool) : string list
   let cur = ref body in
   let k = (match below 10 with 0 | 1 -> 0 | 2 | 3 | 4 -> 1 | 5 | 6 -> 2 | 7 -> 3 | 8 -> 4 | _ -> 6) in
   let last_av = ref None in
+  (* re-adding a witness of the INPUT set as the first operation: the set does not change but the library drops the
+     field's original bytes and re-encodes it (visible when the input field is not canonical) *)
+  (if existing <> [] && chance 25 then [List.nth existing (below (List.length existing))] else []) @
   List.concat (List.init k (fun _ ->
       match below (if sign_ok then 20 else 7) with
       | 0 | 1 -> let o = Printf.sprintf "av:%s:%s" (rand_hex 32) (rand_hex 64) in last_av := Some o; [o]
@@ -551,7 +592,7 @@ let gen_ops ?(wits : string = "") (body : string) (sign_ok : bool) : string list
 
 let gen_tx_parts () : string * string * string * string option * noise =
   let nz = pick_noise () in
-  let size = [| 1; 2; 2; 3; 4; 5 |].(below 6) in
+  let size = (if !big_sizes then [| 1; 2; 3; 4; 5; 6 |] else [| 1; 1; 2; 2; 3; 4 |]).(below 6) in
   let body = gen_body nz size in
   if List.length !body_pool < 40 && chance 30 then body_pool := gen_body quiet 3 :: !body_pool;
   let wits = gen_wits nz size in
@@ -649,6 +690,9 @@ let fixed_cases () : string list =
       "txb " ^ hex_of_string b ^ " " ^ av ^ " " ^ ab; "txb " ^ hex_of_string (b ^ "\x00") ^ " " ^ av;
       "txn " ^ hex_of_string b ^ " a0 1 ~ " ^ av; "txn " ^ hex_of_string b ^ " a10080 0 a0 " ^ ab;
       "txn " ^ hex_of_string b ^ " " ^ hex_of_string ("\xa1\x00\x81" ^ vkw) ^ " 1 a10102 " ^ av;
+      "txn " ^ hex_of_string b ^ " a0 1 a1180102"; "txn " ^ hex_of_string b ^ " a0 0 bf0102ff " ^ av; "txn " ^ hex_of_string b ^ " a0 1 a1011802";
+      "txn " ^ hex_of_string b ^ " a0 1 82a080"; "txn " ^ hex_of_string b ^ " a0 1 9fa080ff"; "txn " ^ hex_of_string b ^ " a0 1 d90103a100a1190001181802";
+      "txn " ^ hex_of_string b ^ " bf0080ff 1 ~ " ^ av; "txn " ^ hex_of_string b ^ " a1190000d901029fff 1 ~";
       "fb " ^ hex_of_string b; "fb " ^ hex_of_string (b ^ "\xff\x01")
     ]) [tiny_body; tiny_body_tagged])
   @ [ "blk 848081a080a0 80"; "blk 858081a080a080 80"; "blk 848081a080a080 80"; "blk 858081a080a0 80"; "blk 838081a080 80";
@@ -710,6 +754,7 @@ let gen_mode seed tier out =
   ignore (next ());
   let oc = open_out out in
   let scale = if tier = "thorough" then 8 else 1 in
+  big_sizes := (tier = "thorough");
   List.iter (fun l -> output_string oc (l ^ "\n")) (fixed_cases ());
   (* stream 1: valid transactions re-encoded with noise, with operation sequences *)
   for _ = 1 to 250 * scale do
@@ -731,9 +776,29 @@ let gen_mode seed tier out =
     let junk = if chance 15 then "\x00" else "" in
     (match below 3 with
      | 0 -> Printf.fprintf oc "txb %s %s\n" (hex_of_string (body ^ junk)) (String.concat " " (gen_ops (body ^ junk) true))
-     | 1 -> Printf.fprintf oc "txn %s %s %d %s %s\n" (hex_of_string (body ^ junk)) (hex_of_string wits) (if valid = "\xf5" then 1 else 0)
+     | 1 ->
+       (* the constructors keep their auxiliary-data argument verbatim: give it visibly non-canonical spellings *)
+       let aux = (match aux with
+           | Some a when chance 60 ->
+             let loud = (match below 3 with 0 -> { quiet with widen = 60 } | 1 -> { quiet with indef = 60 } | _ -> { widen = 40; indef = 40; chunk = 20; shuffle = 0; untag = 0 }) in
+             ignore a; Some (nstr loud (gen_item (auxiliaryData depth) (1 + below 3)))
+           | x -> x) in
+       Printf.fprintf oc "txn %s %s %d %s %s\n" (hex_of_string (body ^ junk)) (hex_of_string wits) (if valid = "\xf5" then 1 else 0)
               (match aux with Some a -> hex_of_string a | None -> "~") (String.concat " " (gen_ops ~wits (body ^ junk) true))
      | _ -> Printf.fprintf oc "fb %s\n" (hex_of_string (if chance 20 then mutate body else body ^ junk)))
+  done;
+  (* stream 3a: the witness set on its own (FixedTxWitnessesSet::from_bytes / add_* / to_bytes) *)
+  for _ = 1 to 30 * scale do
+    let nz = pick_noise () in
+    let wits = gen_wits nz (1 + below 4) in
+    let wits = if chance 12 then mutate wits else wits in
+    let ex = existing_ops wits in
+    let ops = List.concat (List.init (below 4) (fun _ ->
+        match below 5 with
+        | 0 | 1 -> [Printf.sprintf "av:%s:%s" (rand_hex 32) (rand_hex 64)]
+        | 2 -> [Printf.sprintf "ab:%s:%s:%s:a0" (rand_hex 32) (rand_hex 64) (rand_hex 32)]
+        | _ -> (match ex with [] -> [] | l -> [List.nth l (below (List.length l))]))) in
+    Printf.fprintf oc "fws %s %s\n" (hex_of_string wits) (String.concat " " ops)
   done;
   (* stream 3b: the tag state of the body (top-level vs nested sets) decides the form of NEW witness sets;
      every found body is emitted in the eight tagged/untagged combinations of (top-level, pool owners, committee) *)
@@ -741,7 +806,7 @@ let gen_mode seed tier out =
   while (!n_pool < 3 * scale || !n_comm < 3 * scale) && !tries < 3000 * scale do
     incr tries;
     all_fields := true;
-    let it = gen_item (transactionBody depth) (3 + below 4) in
+    let it = gen_item (transactionBody depth) (if !big_sizes then 3 + below 4 else 2 + below 2) in
     all_fields := false;
     (match retag_body false false false it with
      | Some (_, pool, comm) when (pool && !n_pool < 3 * scale) || (comm && !n_comm < 3 * scale) ->
